@@ -5,7 +5,10 @@
   runtime/engine.py         Engine.restart: default maxRestarts when workflowAttributes.maxRestarts is None
                             (with / without a named restartHookFile), the "unlimited" marker compared against,
                             the RestartContext -> RestartCode decision at the end of the method
-  model/frontends/flowir.py the exit reasons the schema excludes from restartHookOn (`dont_restart_on`)
+  model/frontends/flowir.py the exit reasons the schema excludes from restartHookOn (`dont_restart_on`);
+                            FlowIR.default_component_structure: the defaults of workflowAttributes.restartHookOn /
+                            maxRestarts / restartHookFile (what the loader does with them is checked on the real
+                            loader by the harness: Restart.load vs the policy the runtime sees)
 
 Writes lean/St4sd/Gen/C12.lean.  Pin theorems in Props/C12.lean state what the property text fixes.
 """
@@ -125,6 +128,25 @@ def dont_restart_on(tree):
     raise KeyError("dont_restart_on")
 
 
+def default_policy(tree):
+    """defaults of the restart policy in FlowIR.default_component_structure()['workflowAttributes']"""
+    fn = G.find_function(tree, "FlowIR", "default_component_structure")
+    for node in ast.walk(fn):
+        if isinstance(node, ast.Dict):
+            keys = [k.value if isinstance(k, ast.Constant) else None for k in node.keys]
+            if "restartHookOn" in keys and "maxRestarts" in keys and "restartHookFile" in keys:
+                val = dict(zip(keys, node.values))
+                on = val["restartHookOn"]
+                if not isinstance(on, ast.List):
+                    raise ValueError("default restartHookOn is not a list literal")
+                reasons = [_code_key(e) for e in on.elts]
+                for k in ("maxRestarts", "restartHookFile"):
+                    if not (isinstance(val[k], ast.Constant) and val[k].value is None):
+                        raise ValueError("default of %s is not None" % k)
+                return reasons
+    raise KeyError("default workflowAttributes")
+
+
 def extract():
     codes = G.parse("model/codes.py")
     exit_reasons = _dict_keys(codes, "exitReasons")
@@ -136,7 +158,9 @@ def extract():
         raise ValueError("cap")
     eng = G.parse("runtime/engine.py")
     default_plain, default_hook, unlimited, table = engine_restart_constants(eng)
-    dro = dont_restart_on(G.parse("model/frontends/flowir.py"))
+    flowir = G.parse("model/frontends/flowir.py")
+    dro = dont_restart_on(flowir)
+    default_on = default_policy(flowir)
     mapping = []
     for c in contexts:
         if c in table["go"]:
@@ -146,7 +170,8 @@ def extract():
             mapping.append((c, hit[0] if hit else table["otherwise"]))
     return dict(exitReasons=exit_reasons, restartContexts=contexts, restartCodes=rcodes, cap=cap,
                 defaultMaxRestarts=default_plain, defaultMaxRestartsWithHookFile=default_hook, unlimited=unlimited,
-                ctxToCode=mapping, runFailureCode=table["run_failure"], dontRestartOn=dro)
+                ctxToCode=mapping, runFailureCode=table["run_failure"], dontRestartOn=dro,
+                defaultRestartHookOn=default_on)
 
 
 def generate():
@@ -175,9 +200,13 @@ def ctxToCode : List (String × String) := [%s]
 def runFailureCode : String := %s
 /-- exit reasons the FlowIR schema does not accept in `restartHookOn` -/
 def dontRestartOn : List String := %s
+/-- `FlowIR.default_component_structure()['workflowAttributes']['restartHookOn']` (the defaults of maxRestarts and
+restartHookFile are checked to be None by the extractor) -/
+def defaultRestartHookOn : List String := %s
 
 end St4sd.Gen.C12
 """ % (G.lean_str_list(c["exitReasons"]), G.lean_str_list(c["restartContexts"]), G.lean_str_list(c["restartCodes"]),
        c["cap"], G.lean_int(c["defaultMaxRestarts"]), G.lean_int(c["defaultMaxRestartsWithHookFile"]),
-       G.lean_int(c["unlimited"]), pairs, G.lean_str(c["runFailureCode"]), G.lean_str_list(c["dontRestartOn"]))
+       G.lean_int(c["unlimited"]), pairs, G.lean_str(c["runFailureCode"]), G.lean_str_list(c["dontRestartOn"]),
+       G.lean_str_list(c["defaultRestartHookOn"]))
     return {TARGET: src}
